@@ -131,7 +131,7 @@ func wrapOp(class, e string) string {
 		return "(u64 " + e + ")"
 	case "i64":
 		return "(i64 " + e + ")"
-	case "untyped", "time":
+	case "untyped", "time", "big":
 		return e
 	}
 	return e
@@ -196,6 +196,25 @@ func (g *gen) expr(e ast.Expr) (string, string) {
 		}
 		fail(pos, "unary %s not supported", x.Op)
 	case *ast.BinaryExpr:
+		if call, ok := x.X.(*ast.CallExpr); ok {
+			if sel, ok := call.Fun.(*ast.SelectorExpr); ok && sel.Sel.Name == "Cmp" && len(call.Args) == 1 {
+				if lit, ok := x.Y.(*ast.BasicLit); ok && lit.Value == "0" {
+					l, lc := g.expr(sel.X)
+					r, rc := g.expr(call.Args[0])
+					if (lc != "big" && lc != "untyped") || (rc != "big" && rc != "untyped") {
+						fail(pos, "Cmp on classes %s and %s", lc, rc)
+					}
+					op := map[token.Token]string{token.EQL: " =? ", token.GTR: " >? ", token.LSS: " <? ", token.GEQ: " >=? ", token.LEQ: " <=? "}[x.Op]
+					if x.Op == token.NEQ {
+						return "(negb (" + l + " =? " + r + "))", "bool"
+					}
+					if op == "" {
+						fail(pos, "comparison %s of a Cmp result not supported", x.Op)
+					}
+					return "(" + l + op + r + ")", "bool"
+				}
+			}
+		}
 		a, ca := g.expr(x.X)
 		b, cb := g.expr(x.Y)
 		switch x.Op {
@@ -272,6 +291,29 @@ func (g *gen) expr(e ast.Expr) (string, string) {
 				fail(pos, "%s takes %d parameters, call supplies %d", spec.Fn, len(ps), len(args))
 			}
 			return "(" + spec.Fn + " " + strings.Join(args, " ") + ")", spec.Type
+		}
+		// math/big: new(big.Int).Op(a, b) is the exact integer operation; big.NewInt(k) the constant
+		if fn == "big.NewInt" && len(x.Args) == 1 {
+			a, _ := g.expr(x.Args[0])
+			return a, "big"
+		}
+		if sel, ok := x.Fun.(*ast.SelectorExpr); ok && g.text(sel.X) == "new(big.Int)" && len(x.Args) == 2 {
+			a, ca := g.expr(x.Args[0])
+			b, cb := g.expr(x.Args[1])
+			if (ca != "big" && ca != "untyped") || (cb != "big" && cb != "untyped") {
+				fail(pos, "big.Int operation on classes %s and %s", ca, cb)
+			}
+			switch sel.Sel.Name {
+			case "Add":
+				return "(" + a + " + " + b + ")", "big"
+			case "Sub":
+				return "(" + a + " - " + b + ")", "big"
+			case "Mul":
+				return "(" + a + " * " + b + ")", "big"
+			case "Div":
+				return "(ediv " + a + " " + b + ")", "big"
+			}
+			fail(pos, "big.Int method %s not supported", sel.Sel.Name)
 		}
 		// conversion T(x), with the special form uintN(d.Seconds())
 		if c, ok := g.cfg.Types[fn]; ok && len(x.Args) == 1 {
@@ -885,7 +927,7 @@ func main() {
 		}
 		names := []string{}
 		for _, p := range ps {
-			names = append(names, fmt.Sprintf("(%s : %s)", p.name, map[string]string{"bool": "bool"}[p.class]+map[string]string{"u64": "Z", "i64": "Z", "time": "Z"}[p.class]))
+			names = append(names, fmt.Sprintf("(%s : %s)", p.name, map[string]string{"bool": "bool"}[p.class]+map[string]string{"u64": "Z", "i64": "Z", "time": "Z", "big": "Z"}[p.class]))
 		}
 		cls := []string{}
 		for _, p := range ps {
